@@ -23,6 +23,10 @@ type refCounter struct {
 type SpinLock struct {
 	m          *sync.Map
 	refCounter *refCounter
+	// mu makes the map entry and the reference counter of a key change together: without it a
+	// reader could join a shared lock between the last release and the removal of the entry,
+	// the entry was then removed under it, and a writer could take the key exclusively
+	mu sync.Mutex
 }
 
 // LockKey is a lock item with lock type and key
@@ -110,6 +114,8 @@ func (sp *SpinLock) IsLocked(key string) bool {
 
 //TryLock try to lock some keys
 func (sp *SpinLock) TryLock(lockKeys []*LockKey) ([]*LockKey, bool) {
+	sp.mu.Lock()
+	defer sp.mu.Unlock()
 	succLocked := []*LockKey{}
 	for _, k := range lockKeys {
 		if lkType, occupiedByOthers := sp.m.LoadOrStore(k.key, k.lockType); occupiedByOthers {
@@ -131,6 +137,8 @@ func (sp *SpinLock) TryLock(lockKeys []*LockKey) ([]*LockKey, bool) {
 
 //Unlock release the locks on some keys
 func (sp *SpinLock) Unlock(lockKeys []*LockKey) {
+	sp.mu.Lock()
+	defer sp.mu.Unlock()
 	N := len(lockKeys)
 	for i := N - 1; i >= 0; i-- {
 		lkType := lockKeys[i].lockType
